@@ -7,7 +7,7 @@ CONSTANTS
   ChunkSize = 2
   HashReq = 2
   MaxTasks = 2
-  MaxPendingConn = 2
+  MaxPendingConn = 1
   MaxFail = 2
   Skip = 2
   MaxAnchors = 2
